@@ -192,10 +192,13 @@ def mk_corr_rule(I, tag, alias_names, group_by, cond_fieldref, fields):
 class FieldMappingApplyCorrelation(Contract):
     """field-name pipelines rename group-by fields, alias targets and condition fields of a correlation rule with the same mapping that
     is applied to detection fields; alias names themselves stay; the result depends on this rule only (an earlier rule processed by
-    the same transformation object - symbolic history prefix - has no influence)"""
+    the same transformation object - symbolic history prefix - has no influence). The mapping is an uninterpreted function that only
+    _apply_field_name can produce, so every renamed name provably went through that one gate - the place where the field-name conditions
+    are asked and the application is recorded for processing_item_applied (C12._apply_field_name contract); a second route that maps
+    without recording cannot meet the postcondition"""
     id = "C10.FieldMappingTransformationBase.apply[correlation]"
     target = "sigma.processing.transformations.base:FieldMappingTransformationBase.apply"
-    props = ("C10", "C12", "C15")
+    props = ("C10", "C12", "C15", "C13")
     cases = ("aliases", "no_aliases", "no_group_by", "fieldref_list")
     assumed = ["_apply_field_name is abstract: a one-to-one mapping function (the one-to-many error paths are separate cases)", "rule shapes unrolled: <= 2 group-by fields, <= 1 alias"]
 
